@@ -32,10 +32,11 @@ import (
 // locals), "return" (values), "loop"/"endloop", "branch", "tcase" (type-switch clause).
 
 type nctx struct {
-	funcs    map[string]*ast.FuncDecl // "Recv.Name" and "Name" -> declaration
-	noInline map[string]bool          // callees never expanded (by function name)
-	expanded map[*ast.FuncDecl]bool   // helpers expanded by the enumerations run on this context
-	consts   map[string]string        // package-level constants with a literal value: name -> literal text
+	funcs     map[string]*ast.FuncDecl // "Recv.Name" and "Name" -> declaration
+	noInline  map[string]bool          // callees never expanded (by function name)
+	expanded  map[*ast.FuncDecl]bool   // helpers expanded by the enumerations run on this context
+	consts    map[string]string        // package-level constants with a literal value: name -> literal text
+	callSites map[string]int           // calls per function name over the package (lazily computed)
 }
 
 // without returns a copy of the context that does not expand calls of the named functions.
@@ -1518,7 +1519,12 @@ func (e *nenum) helperOf(fr *nframe, ce *ast.CallExpr) *ast.FuncDecl {
 		}
 		return true
 	})
-	if !okBody || nst > 30 {
+	if !okBody {
+		return nil
+	}
+	if nst > 30 && e.callSitesOf(d) != 1 {
+		// (a function with a single call site in the package is a phase of its caller: expanding it gives back the
+		// function the caller was before it was split, whatever its size)
 		return nil
 	}
 	if d.Type.Params != nil {
@@ -2041,8 +2047,9 @@ func (e *nenum) stmt(fr *nframe, s ast.Stmt) {
 					for _, l := range x.Lhs {
 						if id, ok := l.(*ast.Ident); ok {
 							if _, single := fr.defs[lname(id)]; single {
-								if len(d.Body.List) > 1 {
-									// a helper with a body of its own: its result is a value computed here, not a text to repeat
+								if _, singleReturn := d.Body.List[0].(*ast.ReturnStmt); len(d.Body.List) > 1 || !singleReturn {
+									// a helper with a body of its own (several statements, or one statement that is not a
+									// plain return - a switch whose clauses return): its result is a value computed here, not a text to repeat
 									delete(fr.defs, lname(id))
 									*e.counter++
 									fr.multi[lname(id)] = fmt.Sprintf("$%d", *e.counter)
@@ -2659,4 +2666,30 @@ func (c *nctx) withConsts(files []*ast.File) *nctx {
 		}
 	}
 	return c
+}
+
+// callSitesOf counts the calls of a function or method of the package by name, over all functions of the package.
+func (e *nenum) callSitesOf(d *ast.FuncDecl) int {
+	if e.c.callSites == nil {
+		e.c.callSites = map[string]int{}
+		seen := map[*ast.FuncDecl]bool{}
+		for _, f := range e.c.funcs {
+			if f == nil || f.Body == nil || seen[f] {
+				continue
+			}
+			seen[f] = true
+			ast.Inspect(f.Body, func(n ast.Node) bool {
+				if ce, ok := n.(*ast.CallExpr); ok {
+					switch x := ce.Fun.(type) {
+					case *ast.Ident:
+						e.c.callSites[x.Name]++
+					case *ast.SelectorExpr:
+						e.c.callSites[x.Sel.Name]++
+					}
+				}
+				return true
+			})
+		}
+	}
+	return e.c.callSites[d.Name.Name]
 }
